@@ -609,6 +609,17 @@ def upsertTok (s : St) (id : Nat) (ti : TokInfo) : Option St :=
   let toks' := s.toks.filter (fun kv => kv.1 != id) ++ [(id, ti)]
   if (toks'.map (fun t => t.2.stakeCap)).sum ≤ Dec.one then some { s with toks := toks' } else none
 
+/-- `MsgUpsertTokenInfo` (x/tokens msg server) for a denomination that is NOT registered yet: the message's own
+`ValidateBasic` - which the msg server calls first - wants a positive fee rate and a reward cap within [0, 1] whether or
+not the token can be staked; then the registry rule of `upsertTok`. (A registered denomination takes the owner branch of
+the handler, which does not touch the staking fields.) -/
+def registerTok (s : St) (id : Nat) (ti : TokInfo) : Option St :=
+  if ti.feeRate ≤ 0 then none else
+  if ti.stakeCap < 0 then none else
+  if Dec.one < ti.stakeCap then none else
+  if s.toks.any (fun kv => kv.1 == id) then none else
+  upsertTok s id ti
+
 /-! ## layer2 `MsgMintBurnTx` applied to a pool's share tokens (x/layer2/keeper/msg_server.go) -/
 
 /-- the sender's coins go to the layer2 module account and are burnt there: the holder's balance and the bank supply of
